@@ -25,7 +25,7 @@ func init() {
 
 func checkC08(tier string) int {
 	rep := vx.NewReport("C08", tier, "exploration")
-	rep.Rule = "E1: every interleaving (sleep-set reduced) of 2-3 real operations on one real channel with two messages (one operated on, one at rest), per initial state x durable/ephemeral x mem-queue-size; distinct = distinct (scenario, observable outcome) pairs"
+	rep.Rule = "E1 (+ E2: every schedule with <= 1 deviation at any decision point, completed for every scenario): every interleaving (sleep-set reduced) of 2-3 real operations on one real channel with two messages (one operated on, one at rest), per initial state x durable/ephemeral x mem-queue-size; distinct = distinct (scenario, observable outcome) pairs"
 	rep.Assumptions = []string{"sequentially consistent memory; plain data races are looked for separately", "independence relation of rt/vx (one synchronisation object per transition)"}
 	var specs []nsqd.MicroSpec
 	states := []string{"inflight", "queued", "deferred", "expired"}
@@ -80,6 +80,10 @@ func checkC08(tier string) int {
 		}
 	}
 	runMicros(rep, specs, secs, false)
+	// E2 over the same scenarios, completed for every one of them: the default schedule plus
+	// every schedule with one deviation, placed at any decision point (what the budgeted E1
+	// search above may not have reached for the scenarios it lists as capped)
+	runMicrosDelay(rep, specs, 40, 1, true)
 	// E2 (two deviations at shared points, completed): the last consumer of an ephemeral
 	// channel leaves while a new one subscribes - the asynchronous auto-delete in between
 	var especs []nsqd.MicroSpec
@@ -140,7 +144,7 @@ func has(pr []string, op string) bool {
 
 func checkC02(tier string) int {
 	rep := vx.NewReport("C02", tier, "exploration")
-	rep.Rule = "E1: every interleaving (sleep-set reduced) of 2-3 consumer answers / timeout scans / deliveries on one real channel, from each initial holder state; distinct = distinct (scenario, observable outcome) pairs"
+	rep.Rule = "E1 (+ E2: every schedule with <= 1 deviation at any decision point, completed for every scenario): every interleaving (sleep-set reduced) of 2-3 consumer answers / timeout scans / deliveries on one real channel, from each initial holder state; distinct = distinct (scenario, observable outcome) pairs"
 	rep.Assumptions = []string{"sequentially consistent memory; plain data races are looked for separately", "independence relation of rt/vx (one synchronisation object per transition)"}
 	var specs []nsqd.MicroSpec
 	ops := []string{"fin1", "fin1x2", "fin2", "req1", "req1d", "req2", "touch1", "touch2", "scan", "rdy2", "rdy2_2"}
@@ -171,6 +175,7 @@ func checkC02(tier string) int {
 		}
 	}
 	runMicros(rep, specs, secs, false)
+	runMicrosDelay(rep, specs, 40, 1, true) // every schedule with <= 1 deviation at any point, completed
 	// E3: sequential histories (publish paths incl. deferred, two channels, two consumers,
 	// answers by holder and non-holder, timeouts) judged by the same per-delivery monitor
 	hb := 60 * time.Second
